@@ -69,6 +69,29 @@ def flowRun (maxB maxM : Nat) : Nat → Nat → List String → List String → 
     let has := if m' ≥ maxM then false else if b' ≥ maxB then false else true
     flowRun maxB maxM b' m' rest ((if has then "1" else "0") :: acc)
 
+/-- Call-granularity model of `wait_for_available_space` futures polled by hand:
+    `none` = finished/dropped, `some none` = not yet polled, `some (some e)` = waiting since epoch e. -/
+def flowqRun (maxB maxM : Nat) : Nat → Nat → Nat → List (Option (Option Nat)) → List String → List String → String
+  | _, _, _, _, [], acc => joinList acc.reverse ","
+  | b, m, ep, ws, op :: rest, acc =>
+    let has (b m : Nat) : Bool := if m ≥ maxM then false else if b ≥ maxB then false else true
+    match op.splitOn ":" with
+    | ["inc", db, dm] => flowqRun maxB maxM ((b + parseNat db) % u64) ((m + parseNat dm) % u64) (ep + 1) ws rest ("-" :: acc)
+    | ["dec", db, dm] => flowqRun maxB maxM ((b + u64 - parseNat db % u64) % u64) ((m + u64 - parseNat dm % u64) % u64) (ep + 1) ws rest ("-" :: acc)
+    | ["new"] => flowqRun maxB maxM b m ep (ws ++ [some none]) rest ("-" :: acc)
+    | ["drop", i] => flowqRun maxB maxM b m ep (ws.set (parseNat i) none) rest ("-" :: acc)
+    | ["poll", i] =>
+      match ws[parseNat i]? with
+      | some (some none) =>
+        if has b m then flowqRun maxB maxM b m ep (ws.set (parseNat i) none) rest ("r" :: acc)
+        else flowqRun maxB maxM b m ep (ws.set (parseNat i) (some (some ep))) rest ("p" :: acc)
+      | some (some (some e)) =>
+        if e == ep then flowqRun maxB maxM b m ep ws rest ("p" :: acc)
+        else if has b m then flowqRun maxB maxM b m ep (ws.set (parseNat i) none) rest ("r" :: acc)
+        else flowqRun maxB maxM b m ep (ws.set (parseNat i) (some (some ep))) rest ("p" :: acc)
+      | _ => flowqRun maxB maxM b m ep ws rest ("x" :: acc)
+    | _ => flowqRun maxB maxM b m ep ws rest ("bad-op" :: acc)
+
 def pureEval (line : String) : String :=
   match line.trimAscii.toString.splitOn " " with
   | ["topic.parse", h] =>
@@ -132,6 +155,8 @@ def pureEval (line : String) : String :=
     | some ms => "ok " ++ joinList (ms.map (fun m => toString m.1 ++ "=" ++ optNat m.2)) ","
   | "tracker" :: ops => trackerRun Tracker.empty ops []
   | "flow" :: mb :: mm :: ops => flowRun (parseNat mb) (parseNat mm) 0 0 ops []
+  | "flowq" :: mb :: mm :: ops => flowqRun (parseNat mb) (parseNat mm) 0 0 0 [] ops []
+  | ["push.accepts", st] => if pushAccepts (parseNat st) then "1" else "0"
   | _ => "bad-op"
 
 end Driver
